@@ -242,7 +242,11 @@ func checkC06(p *put, c *c06Case, r *vstat.Run) outcome {
 	if risky && r != nil {
 		r.Journal(c, "parse of a long or deeply nested input")
 	}
-	pm := guard(func() { ast, err = p.parse(c.Entry, c.Filename, in) })
+	scale := 1
+	if c.Shape == "flat100k" || c.Shape == "ignoredrun" || c.Shape == "nest300" {
+		scale = 6 // megabytes of input legitimately take seconds
+	}
+	pm := guardFor(func() { ast, err = p.parse(c.Entry, c.Filename, in) }, scale)
 	if risky && r != nil {
 		r.JournalDone()
 	}
